@@ -32,6 +32,23 @@ def make(specs):
                                                               adapter_wildcards=True, indels=True))
 
 
+def documented_required(typ, spec):
+    """(5' part required, 3' part required) of a linked specification by the documented rules: -g requires both parts, -a only the
+    anchored ones; ';required' / ';optional' on a part override."""
+    body = spec.split("=", 1)[1] if "=" in spec.split("...")[0] else spec
+    f, b = body.split("...")
+    out = []
+    for part, anchored in ((f, f.split(";")[0].startswith("^")), (b, b.split(";")[0].endswith("$"))):
+        params = part.split(";")[1:]
+        req = True if typ == "front" else anchored
+        if "required" in params:
+            req = True
+        if "optional" in params:
+            req = False
+        out.append(req)
+    return tuple(out)
+
+
 def lists(tier):
     idx = range(len(MENU))
     out = [(i,) for i in idx] + list(itertools.permutations(idx, 2))
@@ -110,6 +127,10 @@ def run_shard(d):
         specs = [MENU[i] for i in combo]
         ads = make(specs)
         has_linked = any(isinstance(a, LinkedAdapter) for a in ads)
+        for (typ, spec), a in zip(specs, ads):
+            if isinstance(a, LinkedAdapter) and (bool(a.front_required), bool(a.back_required)) != documented_required(typ, spec):
+                V.append(("linked:required", f"linked adapter {spec!r} given as {typ}: required parts (5', 3') = "
+                          f"{(a.front_required, a.back_required)}, documented {documented_required(typ, spec)}", dict(types=[typ], adapters=[spec])))
         for times in (1, 2, 3):
             for action in ACTIONS:
                 if action in ("retain", "crop") and times > 1:
@@ -262,7 +283,7 @@ def replay(path):
         v = json.load(f)
     print(json.dumps(v, indent=1))
     c = v["case"]
-    if "types" not in c:
+    if "types" not in c or "read" not in c:
         import sys
         return common.replay_by_rerun(sys.modules[__name__], PROP, path)
     specs = list(zip(c["types"], c["adapters"]))
